@@ -66,10 +66,10 @@ def gen_groups(run, n):
         elif gi % 2 == 0:
             schema = gen_schema(rng, odd_type_names=True, n_enum=rng.randint(1, 3), n_input=rng.randint(1, 3))
             # at least one enum value that is a Rust keyword and one that changes under normalization
-            e0 = schema.of_kind("enum")[0]
-            for extra in ("type", "in_progress"):
-                if extra not in schema.types[e0]["values"] and names.camel(extra) not in {names.camel(v) for v in schema.types[e0]["values"]}:
-                    schema.types[e0]["values"].append(extra)
+            for e0 in schema.of_kind("enum"):
+                for extra in ("type", "in_progress"):
+                    if extra not in schema.types[e0]["values"] and names.camel(extra) not in {names.camel(v) for v in schema.types[e0]["values"]}:
+                        schema.types[e0]["values"].append(extra)
         doc, feats = gen_document(schema, rng, n_ops=rng.choice([1, 1, 2]))
         other = rng.random() < 0.4      # not wire-neutral: held constant inside a group
         skip = rng.random() < 0.3 or enum_free
@@ -99,7 +99,11 @@ def gen_groups(run, n):
         all_dims = [[]]
         for vi in range(1, 4):
             cid = "g%dv%d" % (gi, vi)
-            vo, dims = variant_options(rng, schema, cid, force_dim=dims_cycle[(gi * 3 + vi) % len(dims_cycle)])
+            # the first variant of every group differs (at least) in normalization, the others cycle through the rest
+            vo, dims = variant_options(rng, schema, cid, force_dim="normalization" if vi == 1 else dims_cycle[(gi * 2 + vi) % len(dims_cycle)])
+            if vi == 1:
+                vo.pop("extern_enums", None)
+                dims = [d for d in dims if d != "extern_enums"]
             opts = dict(base_opts)
             opts.update(vo)
             if enum_free:
@@ -178,8 +182,8 @@ def main(run):
                 if vec["kind"] == "enum" and ((a or {}).get("absent") or (b or {}).get("absent")):
                     continue
                 if a != b:
-                    if a and b and a.get("ok") == b.get("ok") and same(a.get("reser"), b.get("reser")) and same(a.get("body"), b.get("body")) and same((a.get("str") or {}).get("reser"), (b.get("str") or {}).get("reser")):
-                        continue   # equal up to float formatting / null members
+                    # identical means identical: a member written as null under one option set and left out under
+                    # another is a wire difference
                     diff = (vec, a, b)
                     break
             if diff:
